@@ -91,6 +91,7 @@ func caseGen() *rapid.Generator[Case] {
 		} else {
 			c.Script = withHdr.Draw(t, "script")
 		}
+		gen.TwinItems(t, c.Script.Ops)
 		// mostly unset/true/false, rarely a non-boolean
 		c.SkipByCallback = rapid.IntRange(0, 5).Draw(t, "skip-by-callback") == 0
 		if rapid.IntRange(0, 2).Draw(t, "pre?") == 0 {
